@@ -136,7 +136,7 @@ impl Prop for E2eProp {
         }
     }
     fn strategy(&self, tier: Tier) -> BoxedStrategy<E2eCase> {
-        (problem_spec(tier.pick(12, 30)), config_spec(tier.pick(40, 200))).prop_map(|(spec, config)| E2eCase { spec, config }).boxed()
+        (mixed_spec(tier.pick(12, 30)), config_spec(tier.pick(40, 200))).prop_map(|(spec, config)| E2eCase { spec, config }).boxed()
     }
     fn cases(&self, tier: Tier) -> u32 {
         tier.pick(2_400, 60_000)
